@@ -490,4 +490,68 @@ theorem corr_qfree (a : Nat) (r : Exec.XReg) (Q : List PCmd) (t : State XMem) (k
         · xm
         · xm
 
+/-! ### whole programs -/
+
+theorem roles_empty : xMachine.roles "" = none := by decide
+
+theorem step_stuck_of_noroles {Q : List PCmd} {t : State XMem} {k : Nat} {args : List Int} {ops : List POperand}
+    (hg : Q[k]? = some (.instr "" args ops)) : step xMachine Q t k = .stuck := by
+  simp only [step, hg, roles_empty]
+
+/-- **`Exec.stepLoc` is an instance of the machine.**  On the read-back `X.map ofExec` of any
+executor program `X`, a successful machine step is the executor's step on the concretised state,
+and a machine fault is an executor fault of the same kind. -/
+theorem step_corr (a : Nat) (X : List Exec.Instr) (t : State XMem) (k : Nat) :
+    (∀ t' pc', step xMachine (X.map ofExec) t k = .next t' pc' →
+      ∃ x, X[k]? = some x ∧ Exec.stepLoc false a x (conc t) (k : Int) = .ok (conc t') (pc' : Int)) ∧
+    (∀ f, step xMachine (X.map ofExec) t k = .fault f →
+      ∃ x, X[k]? = some x ∧ lresKind (Exec.stepLoc false a x (conc t) (k : Int)) = some f) := by
+  cases hx : X[k]? with
+  | none =>
+    have : (X.map ofExec)[k]? = none := by simp [hx]
+    constructor <;> intros <;> simp_all [step]
+  | some x =>
+    have hg : (X.map ofExec)[k]? = some (ofExec x) := by simp [hx]
+    have key : StepCorr a x (X.map ofExec) t k := by
+      cases x with
+      | set r v => exact corr_set a r v _ t k hg
+      | load r ad i => exact corr_load a r i ad _ t k hg
+      | store r ad i => exact corr_store a r i ad _ t k hg
+      | lea r ad => exact corr_lea a r ad _ t k hg
+      | undef ad i => exact corr_undef a i ad _ t k hg
+      | array n ad => exact corr_array a n ad _ t k hg
+      | add d x y => exact corr_add a d x y _ t k hg
+      | sub d x y => exact corr_sub a d x y _ t k hg
+      | addm d x y m => exact corr_addm a d x y m _ t k hg
+      | subm d x y m => exact corr_subm a d x y m _ t k hg
+      | bez r tg => exact corr_bez a r tg _ t k hg
+      | bnz r tg => exact corr_bnz a r tg _ t k hg
+      | beq x y tg => exact corr_beq a x y tg _ t k hg
+      | bne x y tg => exact corr_bne a x y tg _ t k hg
+      | blt x y tg => exact corr_blt a x y tg _ t k hg
+      | bge x y tg => exact corr_bge a x y tg _ t k hg
+      | jmp tg => exact corr_jmp a tg _ t k hg
+      | retReg r => exact corr_retReg a r _ t k hg
+      | retArr ad => exact corr_retArr a ad _ t k hg
+      | qalloc r => exact corr_qalloc a r _ t k hg
+      | qfree r => exact corr_qfree a r _ t k hg
+      | meas q c => simp only [ofExec] at hg; simp [StepCorr, step_stuck_of_noroles hg]
+      | q1 n r => simp only [ofExec] at hg; simp [StepCorr, step_stuck_of_noroles hg]
+      | rot n r u v => simp only [ofExec] at hg; simp [StepCorr, step_stuck_of_noroles hg]
+      | q2 n r0 r1 => simp only [ofExec] at hg; simp [StepCorr, step_stuck_of_noroles hg]
+      | crot n r0 r1 u v => simp only [ofExec] at hg; simp [StepCorr, step_stuck_of_noroles hg]
+    exact ⟨fun t' pc' h => ⟨x, rfl, key.1 t' pc' h⟩, fun f h => ⟨x, rfl, key.2 f h⟩⟩
+
+/-- runs of the machine on the read-back are runs of the executor model -/
+theorem xsteps_of_steps (a : Nat) (X : List Exec.Instr) {c c' : State XMem × Nat}
+    (h : Steps xMachine (X.map ofExec) c c') : XSteps a X (conc c.1, (c.2 : Int)) (conc c'.1, (c'.2 : Int)) := by
+  induction h with
+  | refl c => exact .refl _
+  | step hs _ ih =>
+    obtain ⟨x, hx, hl⟩ := (step_corr a X _ _).1 _ _ hs
+    exact .step hx hl ih
+
+theorem xExec_set (v : Int) (m : XMem) : xExec "set" [.dst, .imm v] m = .ok (some v) m false := by
+  simp [xExec]
+
 end NQ.Asm
